@@ -133,6 +133,12 @@ TurnsCCW(a, b, c, v) == BSign(Lam(a, b, c, v)) > 0
 (* tolerance).  Cell(h, q, c) is coordinate c of h (units 1/q) in units of 1/SepDen of the  *)
 (* length unit, rounded down: cells that differ by 2 or more in some coordinate prove a     *)
 (* distance > 1/SepDen in plain integers; the few remaining pairs are compared exactly.     *)
+(* Extent guard: float vertices are identified with exact positions to an absolute 1e-8     *)
+(* (harness/c19.py); double rounding reaches that for needle-like shapes thousands of units   *)
+(* long, so shapes reaching beyond ExtentMax length units (16x the largest energy of the      *)
+(* generated domain) are not judged.                                                          *)
+ExtentMax == 32
+Compact(V, q) == \A h \in V : \A c \in 1..3 : AbsI(h[c]) <= ExtentMax * q * h[4]     \* 32 * 1000 * DB < 2^31
 SepDen == 1000
 SepFine == 10000
 ASSUME NB * SepDen < 2147483647 /\ DB * 1000 < 2147483647
